@@ -1,11 +1,11 @@
 """C08 — paths and strings split over several records are reassembled exactly, once."""
 from .. import vlib
 from ..vlib import cN, clist
-from ..translate import tr_decoders, tr_handlers
+from ..translate import tr_pairing, tr_decoders, tr_handlers
 from ..harness import dumps as D
 from . import decoder_common as dc
 
-TRANSLATORS = [tr_handlers.translate, tr_decoders.translate]
+TRANSLATORS = [tr_handlers.translate, tr_decoders.translate, tr_pairing.translate]
 MODEL_TARGETS = ['theories/ChunkCases.vo', 'theories/DecoderCases.vo', 'theories/DecoderWindowCases.vo']
 PROOF_TARGETS = ['props/C08.vo']
 PROP_FILE = 'props/C08.v'
@@ -74,10 +74,27 @@ def run(ctx, model_ok):
             evs = enc(kind, a, b, text)
             cases.append({'kind': kind, 'events': evs})
             metas.append((kind, a, b, text, evs))
+            if len(evs) >= 2:
+                # ... and with unrelated same-thread records of the same pairing domain between the chunks: same text, same ids,
+                # and the trace still holds its whole window
+                foreign = [[rng.randrange(3), rng.choice([0, 0, 3])] for _ in range(rng.choice([1, 1, 2]))]
+                cases.append({'kind': kind, 'events': evs, 'foreign': foreign})
+                metas.append((kind, a, b, text, evs, foreign))
     res = vlib.run_impl('run_chunks.py', {'cases': cases})['results']
     ctx.evaluations = len(cases)
     coq = []
-    for (kind, a, b, text, evs), r in zip(metas, res):
+    for meta, r in zip(metas, res):
+        kind, a, b, text, evs = meta[:5]
+        if len(meta) == 6:
+            ctx.count('with unrelated records in between')
+            if 'err' in r or bytes.fromhex(r['text']) != text or (kind != 2 and (r['a'], r['b']) != (a, b)) \
+                    or (kind == 1 and text and r.get('gstr') != [[b, text.decode()]]):
+                ctx.failing.append({'input': {'kind': ('lookup', 'global string', 'thread name')[kind], 'text': text.hex(),
+                                              'id': [a, b], 'records': evs, 'unrelated_records_between_chunks': meta[5]},
+                                    'expected': {'text': text.decode('utf-8', 'replace'), 'id': [a, b]}, 'actual': r,
+                                    'why': 'with unrelated same-thread records between the chunks the reassembled text / id / string '
+                                           'table is not the one the kernel split, or the trace does not hold its window'})
+            continue
         ctx.count(('lookup', 'string', 'threadname')[kind] + ':records=%d' % min(len(evs), 4))
         if len(evs) >= 3:
             ctx.nontrivial.add((kind, text))
@@ -111,8 +128,16 @@ def run(ctx, model_ok):
                 paths = [(rng.randint(1, 999), rand_text(rng, rng.choice([3, 24, 25, 57, 90, 184]))) for _ in range(nl)]
             first = dc.in_domain_first(R, key, rng)
             evs = [[7, R.code_of[key], 1, first]]
+            # an unrelated call of the same thread that starts before a lookup and ends between two of its records (windows
+            # that overlap without nesting)
+            cross = 'open' if (rng.random() < 0.35 and key != 'BSC_read') else None
+            if cross:
+                evs.append([7, R.code_of['BSC_read'], 1, [3, 0x1000, 16, 0]])
             for vid, text in paths:
-                for q, ws in enc(0, vid, 0, text):
+                for ci, (q, ws) in enumerate(enc(0, vid, 0, text)):
+                    if cross == 'open' and ci == 1:
+                        evs.append([7, R.code_of['BSC_read'], 2, [0, 16, 0, 0]])
+                        cross = 'closed'
                     evs.append([7, lookup, q, ws])
                     if rng.random() < 0.4:                      # unrelated same-thread records in between
                         evs.append([7, R.code_of['BSC_getpid'], rng.choice([0, 3]), [1, 2, 3, 4]])
@@ -120,6 +145,8 @@ def run(ctx, model_ok):
                     evs.append([7, 0x0a0b0c00, rng.choice([0, 1, 2, 3]), [0x2f2f2f2f41414141, 0x4242424242424242, 0x43, 0x44]])
                 if 'VFS_LOOKUP_DONE' in R.code_of and rng.random() < 0.6:   # the kernel's lookup-done notice is not a lookup
                     evs.append([7, R.code_of['VFS_LOOKUP_DONE'], 0, [vid, 0, 0, 0]])
+            if cross == 'open':
+                evs.append([7, R.code_of['BSC_read'], 2, [0, 16, 0, 0]])
             evs.append([7, R.code_of[key], 2, [0, 5, 0, 0]])
             recs = [D.record(j + 1, ws, t, c | q) for j, (t, c, q, ws) in enumerate(evs)]
             reqs.append({'file': D.build_v2([(7, 1, b'p')], 0, recs).hex(), 'cfg': {'color': False}, 'calls': ['traces']})
